@@ -223,7 +223,7 @@ def run(chk, tier):
             a = [vshow(x) for x in mk[0][7]]
             det = str(a)[:260]
             if a[0] == 'self' and a[2] == 'src_port.0' and a[3] == 'dest_port.0' and \
-                    re.fullmatch(r'call:array::index\(repeat\(self\.payload_pattern\.0, \d+\), (?:Range\(0, |RangeTo\()Min\(payload_size, \d+\)\)\)|subslice\(repeat\(self\.payload_pattern\.0, \d+\), 0, Min\(payload_size, \d+\)\)', a[4]) and \
+                    re.fullmatch(r'call:array::index\(repeat\(self\.payload_pattern\.0, \d+\), (?:Range\(0, |RangeTo\()MIN\)\)|subslice\(repeat\(self\.payload_pattern\.0, \d+\), 0, MIN\)'.replace('MIN', r'Min\((?:payload_size, \d+|\d+, payload_size)\)'), a[4]) and \
                     re.fullmatch(r'Result::Ok\(call:UdpPacket::get_checksum\(field:0\(call:Ipv4::make_udp_packet\(.*\)\)\)\)', vshow(o.value)):
                 good = True
     if good:
